@@ -46,7 +46,7 @@ def hull_cases(draw):
     aspect = draw(st.sampled_from([1.0, 1.0, 0.1, 10.0, 3.0]))
     off = draw(st.sampled_from([0.0, 1.0, -10.0, 100.0, -100.0]))
     return dict(lattice=lattice, data=data, query=query, scale=scale, aspect=aspect, offset=[off * scale, -off * scale * aspect],
-                form=draw(st.sampled_from(["array", "array2d", "grid"])), proj=draw(st.sampled_from([None, None, [2.0, 0.5], [-1.0, 3.0]])),
+                form=draw(st.sampled_from(["array", "array2d", "grid"])), proj=draw(st.sampled_from([None, None, [2.0, 0.5], [-1.0, 3.0], "polar"])),
                 dshape=draw(st.sampled_from(blocks.shape_options(n))), orders=draw(build.orders_strategy()))
 
 
@@ -70,13 +70,33 @@ def check_hull(case, ctx):
     lay = build.Lay(case.get("orders"))
     dcoords = (lay(d[:, 0], case["dshape"]), lay(d[:, 1], case["dshape"]))
     proj = None
-    if case["proj"] is not None:
+    if case["proj"] == "polar":
+        # non-linear and non-separable: easting is an angle, northing a radius (the hull is taken in the projected plane)
+        e0, n0 = float(d[:, 0].min()), float(d[:, 1].min())
+        se, sn = float(np.ptp(d[:, 0])) or 1.0, float(np.ptp(d[:, 1])) or 1.0
+
+        def proj(e, n):
+            ang = 2.5 * (np.asarray(e) - e0) / se
+            rad = 1.0 + (np.asarray(n) - n0) / sn
+            return rad * np.cos(ang), rad * np.sin(ang)
+    elif case["proj"] is not None:
         ax, ay = case["proj"]
         proj = lambda e, n: (ax * np.asarray(e), ay * np.asarray(n))  # noqa: E731
     kw = {} if proj is None else dict(projection=proj)
+    polar = case["proj"] == "polar"
+    if polar:
+        # the hull lives in the projected plane: recompute the exact hull from the projected float coordinates
+        pe_, pn_ = proj(d[:, 0], d[:, 1])
+        exact_data = [(Fraction(float(a)), Fraction(float(b))) for a, b in zip(pe_, pn_)]
+        hull = convex_hull(exact_data)
+        if len(hull) < 3:
+            ctx.skip("degenerate_hull")
+        qp = place(case["query"], case)
+        qe_, qn_ = proj(qp[:, 0], qp[:, 1])
+        exact_q = [(Fraction(float(a)), Fraction(float(b))) for a, b in zip(qe_, qn_)]
     diam = max(float(max(p[0] for p in exact_data) - min(p[0] for p in exact_data)), float(max(p[1] for p in exact_data) - min(p[1] for p in exact_data)))
-    margin = 0.0 if case["lattice"] else 1e-9 * diam
-    if case["form"] == "grid":
+    margin = 0.0 if (case["lattice"] and not polar) else 1e-9 * diam
+    if case["form"] == "grid" and not polar:
         # queries on a regular grid covering the cloud
         qe = np.linspace(d[:, 0].min() - 0.1 * case["scale"], d[:, 0].max() + 0.1 * case["scale"], 6)
         qn = np.linspace(d[:, 1].min() - 0.1 * case["scale"] * case["aspect"], d[:, 1].max() + 0.1 * case["scale"] * case["aspect"], 5)
